@@ -185,12 +185,32 @@ func BodyWithSig(member, raw, sigHex string) []byte {
 }
 
 // IssuerChain is the URL-escaped PEM chain carried in the issuer-chain header.
-func IssuerChain(certs ...*Cert) string {
+func IssuerChain(certs ...*Cert) string { return IssuerChainStyled(0, certs...) }
+
+// IssuerChainStyled writes the URL-escaped PEM chain the way different servers do: 0 = Go's QueryEscape ('+' for a
+// space), 1 = "%20" for a space with upper-case escapes (what Intel's service sends), 2 = the same with lower-case escapes.
+func IssuerChainStyled(style int, certs ...*Cert) string {
 	var s string
 	for _, c := range certs {
 		s += string(c.PEM)
 	}
-	return url.QueryEscape(s)
+	e := url.QueryEscape(s)
+	if style >= 1 {
+		e = strings.ReplaceAll(e, "+", "%20")
+	}
+	if style == 2 {
+		var b strings.Builder
+		for i := 0; i < len(e); i++ {
+			if e[i] == '%' && i+2 < len(e) {
+				b.WriteString(strings.ToLower(e[i : i+3]))
+				i += 2
+				continue
+			}
+			b.WriteByte(e[i])
+		}
+		e = b.String()
+	}
+	return e
 }
 
 // MkCRL creates a CRL signed by issuer.
@@ -242,7 +262,6 @@ func (g *Getter) Get(u string) (map[string][]string, []byte, error) {
 	}
 	return h, append([]byte(nil), r.B...), nil
 }
-
 
 // FormatTime writes an instant as an RFC 3339 timestamp in one of several legal styles (same instant):
 // 0 "…Z", 1 "+00:00", 2 positive offset, 3 negative offset with minutes, 4 fractional seconds ".000Z", 5 "…000000Z".
